@@ -5,9 +5,9 @@ import json, os, shutil, subprocess, sys, tempfile
 from pathlib import Path
 VERIF = Path(__file__).resolve().parent.parent
 pid = sys.argv[1]
-gen = sys.argv[2] if len(sys.argv) > 2 else "gen1"      # gen2: ids Cxx-3/4 ; gen3: Cxx-5/6 ; gen4: Cxx-7/8
-src = Path({"gen1": "/tmp/seed-out", "gen2": "/tmp/seed-out2", "gen3": "/tmp/seed-out3", "gen4": "/tmp/seed-out4"}[gen]) / pid
-OFF = {"gen1": 0, "gen2": 2, "gen3": 4, "gen4": 6}[gen]
+gen = sys.argv[2] if len(sys.argv) > 2 else "gen1"      # gen2: ids Cxx-3/4 ; gen3: Cxx-5/6 ; gen4: Cxx-7/8 ; gen5: Cxx-7 for the properties gen4 skipped
+src = Path({"gen1": "/tmp/seed-out", "gen2": "/tmp/seed-out2", "gen3": "/tmp/seed-out3", "gen4": "/tmp/seed-out4", "gen5": "/tmp/seed-out5"}[gen]) / pid
+OFF = {"gen1": 0, "gen2": 2, "gen3": 4, "gen4": 6, "gen5": 6}[gen]
 for n in (1, 2, 3):
     diff, demo, meta = src / f"mutant{n}.diff", src / f"demo{n}.py", src / f"meta{n}.json"
     if not diff.exists():
